@@ -32,6 +32,9 @@ try:
     rc, out = sh(runcmd, cwd=wt, env=env, timeout=1200)
     res['demo_without_patch'] = rc
     rc, out = sh('git apply --exclude="out/*" %s' % patch, cwd=wt)
+    if rc != 0:   # the tree moved on since the change was written: try a three-way application
+        rc, out = sh('git apply --3way --exclude="out/*" %s && git reset -q' % patch, cwd=wt)
+        res['applied_3way'] = (rc == 0)
     res['patch_applies'] = (rc == 0)
     if rc != 0:
         res['apply_error'] = out[-500:]
@@ -53,6 +56,9 @@ if res.get('patch_applies'):
     rc, out = sh('git -C /repo status --porcelain')
     assert out.strip() == '', 'refusing: /repo has local changes: ' + out
     rc, out = sh('git -C /repo apply --exclude="out/*" %s' % patch)
+    if rc != 0:
+        rc, out = sh('git -C /repo apply --3way --exclude="out/*" %s && git -C /repo reset -q' % patch)
+    assert rc == 0, out
     try:
         for p in [pid] + extra:
             t0 = time.time()
